@@ -154,6 +154,9 @@ func c11Case(i int, raw []byte) Result {
 			for fi, f := range pg {
 				x, y := hfPos(f)
 				t := hfText(f, p+1)
+				if i%2 == 0 && f.Band != "Body" {
+					t += " " // a marginal line as producers often write it: with a trailing blank inside the string
+				}
 				dx := 0.0
 				if fi > 0 && pg[fi-1] == f {
 					dx = 0.6 // the same line printed again a fraction of a point to the right (emboldening)
@@ -261,7 +264,11 @@ func c11Case(i int, raw []byte) Result {
 		}
 		for _, f := range pg {
 			x, y := hfPos(f)
-			pl = append(pl, pdfdoc.Placed{X: x, Y: y * size[1] / 792, Size: 10, Text: hfText(f, p+1)})
+			t := hfText(f, p+1)
+			if i%2 == 0 && f.Band != "Body" {
+				t += " " // (the lines of the rendered text are compared trimmed)
+			}
+			pl = append(pl, pdfdoc.Placed{X: x, Y: y * size[1] / 792, Size: 10, Text: t})
 		}
 		placed = append(placed, pl)
 		sizes = append(sizes, size)
